@@ -49,6 +49,9 @@ OPTION_EDITS = {
     'known-flag-twice': ('metadata,metadata', 'ok'),
     # the second template set lays the package out as <namespace>/<name>/<version>/
     'ads': ('python-gapic-templates=ads-templates,old-naming', ('naming', None, None, 'ads')),
+    # library setting unversioned_package_disabled (service YAML): the alias package <namespace>/<name>/ is not emitted, the
+    # versioned package is
+    'unversioned-disabled': ('service-yaml=@svc.yaml@', ('naming', None, None, 'no-alias')),
 }
 
 
@@ -80,15 +83,19 @@ def build(ns_depth, version, layout, deps, fname_kind, parameter=''):
         # every target file sits in a sub-package; no file in the API package itself (the googleads layout)
         fa = file(f'{pdir}/parts/{stems[0]}.proto', pkg + '.parts', messages=[
             message('Part', [field('name', 1, 'string')]), message('GetPartRequest', [field('name', 1, 'string')])])
+        # a third sibling whose name has the first one's name as a textual prefix
+        fc = file(f'{pdir}/partsbin/bin.proto', pkg + '.partsbin', messages=[message('Bin', [field('name', 1, 'string')])])
         fb = file(f'{pdir}/tools/tool.proto', pkg + '.tools', messages=[message('Tool', [field('name', 1, 'string'), field('part', 2, f'.{pkg}.parts.Part')])],
                   services=[service('ToolService', [method('GetPart', f'.{pkg}.parts.GetPartRequest', f'.{pkg}.parts.Part',
                                                            http=('get', '/v1/{name=parts/*}'))], host='widgets.example.com')])
         std = desc.std_dep_names()
         fa.dependency.extend(std)
+        fc.dependency.extend(std)
         fb.dependency.extend(std + [fa.name])
-        req = request([fa, fb], parameter + (',' if parameter else '') + 'autogen-snippets=false')
+        req = request([fa, fc, fb], parameter + (',' if parameter else '') + 'autogen-snippets=false')
         desc.gate(req)
-        return req, dict(package=pkg, ns=ns, version=version, targets=[(fa.name, pkg + '.parts', []), (fb.name, pkg + '.tools', ['ToolService'])],
+        return req, dict(package=pkg, ns=ns, version=version, targets=[(fa.name, pkg + '.parts', []), (fc.name, pkg + '.partsbin', []),
+                                                                       (fb.name, pkg + '.tools', ['ToolService'])],
                          dep_names=[], dep_services=[])
     main = file(f'{pdir}/{stems[0]}.proto', pkg, messages=main_msgs,
                 services=[service('WidgetService', [method('GetWidget', Q('GetWidgetRequest'), Q('Widget'),
@@ -156,6 +163,13 @@ def judge_names(res, info, naming=None):
     else:
         root = '/'.join(ns + (nm + ('_' + info['version'] if info['version'] else ''),))
     alias = '/'.join(ns + (nm,))
+    if naming and len(naming) > 2 and naming[2] == 'no-alias' and alias != root:
+        for n in names_:
+            if n.startswith(alias + '/'):
+                out.append(('alias-package-emitted', f'{n} although the unversioned package is disabled'))
+                break
+        if not any(n.startswith(root + '/') for n in names_):
+            out.append(('versioned-package-missing', f'nothing emitted under {root}/'))
     py = [n for n in names_ if n.endswith('.py')]
     lib_py = [n for n in py if n.split('/')[0] not in LIB_TOP_OK and '/' in n]
     for n in lib_py:
@@ -236,8 +250,13 @@ def make_job(s, opt_name=None, via='inproc'):
     ns_depth, version, layout, deps, fk = s
     param = OPTION_EDITS[opt_name][0] if opt_name else ''
     req, info = build(ns_depth, version, layout, deps, fk, param)
+    of = None
+    if opt_name == 'unversioned-disabled':
+        of = {'svc.yaml': ('type: google.api.Service\nconfig_version: 3\nname: widgets.example.com\npublishing:\n  library_settings:\n'
+                           f'  - version: {info["package"]}\n    python_settings:\n      experimental_features:\n'
+                           '        unversioned_package_disabled: true\n')}
     return dict(id=state_id(s) + ('|' + opt_name if opt_name else '') + ('|cli' if via == 'cli' else ''),
-                req=req.SerializeToString(), via=via, keep=['*.py'], return_response=True, materialise=False,
+                req=req.SerializeToString(), via=via, keep=['*.py'], return_response=True, materialise=False, opt_files=of,
                 _state=list(s), _opt=opt_name, _info=info)
 
 
